@@ -105,13 +105,20 @@ def gen_program(seed: int) -> Dict[str, Any]:
     # a shape
     shape_names: List[str] = []
     if rs.chance(0.4):
-        k = rs.pick(["cylinder", "ring", "hemisphere", "hemisphere_copy", "cylinder_hemisphere", "frustum"])
+        k = rs.pick(["cylinder", "ring", "hemisphere", "hemisphere_copy", "cylinder_hemisphere", "frustum", "elbow", "semicylinder"])
         o = [0.0, 30.0, 0.0]
         if k == "cylinder":
             ops.append({"op": "shape", "name": "s0", "kind": "cylinder", "args": {"p1": o, "p2": [0, 30, rs.uniform(1, 2)], "r": [rs.uniform(0.5, 1), 30, 0]}})
             shape_names = ["s0"]
         elif k == "frustum":
             ops.append({"op": "shape", "name": "s0", "kind": "frustum", "args": {"p1": o, "p2": [0, 30, 1.5], "r1": [1, 30, 0], "r2": rs.uniform(0.3, 0.8)}})
+            shape_names = ["s0"]
+        elif k == "elbow":
+            ops.append({"op": "shape", "name": "s0", "kind": "elbow", "args": {"c": o, "r1": [0.5, 30, 0], "n1": [0, 0, 1], "angle": round(rs.uniform(0.5, 1.5), 3),
+                                                                                 "arc_c": [2.0, 30, 0], "axis": [0, 1, 0], "r2": rs.uniform(0.3, 0.7)}})
+            shape_names = ["s0"]
+        elif k == "semicylinder":
+            ops.append({"op": "shape", "name": "s0", "kind": "semicylinder", "args": {"p1": o, "p2": [0, 30, 1.2], "r": [0.9, 30, 0]}})
             shape_names = ["s0"]
         elif k == "ring":
             ops.append({"op": "shape", "name": "s0", "kind": "ring", "args": {"p1": o, "p2": [0, 30, 1], "r_out": [1.0, 30, 0], "r_in": 0.5, "n": rs.pick([4, 5, 8])}})
